@@ -108,6 +108,7 @@ type RunCtx struct {
 	Worlds []*World
 	Rng    *rand.Rand // scenario-level PRNG (never used in replayed decisions)
 	fifo   *Chooser
+	After  []func()
 	start  time.Time
 }
 
@@ -209,6 +210,9 @@ func RunScenario(t *testing.T, sc *Scenario) *Result {
 			drv(rc)
 		})
 	}()
+	for _, f := range rc.After {
+		f() // work that must happen outside the bubble (real-time checkers)
+	}
 	res.WallMs = time.Since(wall).Milliseconds()
 	res.SimTimeMs = simEnd.Sub(simStart).Milliseconds()
 	h := sha256.New()
@@ -247,6 +251,11 @@ func RunScenario(t *testing.T, sc *Scenario) *Result {
 	}
 	if res.Reordered > 0 {
 		nontrivial = true
+	}
+	// drivers without a world (generator, derivation, exchange runs) fold their observable outcome
+	// into the event-log hash through the sample
+	if len(rc.Worlds) == 0 && res.Sample != nil {
+		h.Write([]byte(toJSON(res.Sample)))
 	}
 	res.LogHash = hex.EncodeToString(h.Sum(nil))
 	res.SchedHash = hex.EncodeToString(hs.Sum(nil)[:8])
